@@ -258,7 +258,14 @@ def guard_strictness(chk, repo, rule):
     for dun, op in (("__gt__", ">"), ("__lt__", "<")):
         f = ps.methods.get(dun)
         need(f is not None, f"PacketSize.{dun} vanished")
-        ok = bool(find("e.r9 = e.mA[e.r1]", f, mode="stmt")) and len(find(
+        loads = find("e.r9 = e.mA[e.r1]", f, mode="stmt")
+        # the packet base is (re)loaded by every guard: whatever r9 held
+        # before - a scratch value, a pointer that bpf_xdp_adjust_head has
+        # invalidated - is not what the accessors may use
+        uncond = bool(loads) and not any(
+            path_facts(stmt_of(c) if not isinstance(c, ast.stmt) else c)
+            for c, _ in loads)
+        ok = uncond and len(find(
             f"e.mA[e.r1 + 4] {op} e.mA[e.r1] + value", f)) == 1 and bool(
                 find("Packet(e, Else, 9)", f))
         chk.ob(rule, ps.qualname + "." + dun, f"{dun}: data_end {op} data "
